@@ -68,6 +68,18 @@ CLAIMS = {
           "Does NOT decide byte identity of transferred objects."),
     note="Assumes add_objects_to_pack returns keys in input order (C01/C09 rules) and dict insertion order.",
     technique="linear typestate + constant propagation on ICFGs + def-use matching", ref="5/C14"),
+ 'C15': dict(
+    text=("Decides structural clauses of backup_container: (R1) copy steps classified by the kind of their source path run in the order loose -> index dump -> copy of the dump -> packs -> rest on every path; "
+          "(R2) the copied index is the temporary dump written by sqlite3.Connection.backup, never the live file; (R3) the constant exclude patterns of the final copy, evaluated with rsync name matching, cover loose/, packs/, the index and the -wal/-shm side files implied by journal_mode=wal; "
+          "(R4) rsync exit status raises, no handler in the backup path swallows errors, the live-backup folder is renamed only after the backup function returned. Does NOT decide the schedules (placements of concurrent steps)."),
+    note="Relies on C13/C05 (append-only packs, commit after write) as the property's own anchor says; only simple exclude patterns are evaluated.",
+    technique="ordering typestate over kind-classified copy steps + constant pattern evaluation + error-propagation checks", ref="5/C15"),
+ 'C18': dict(
+    text=("Decides resource-shape clauses: (R1) every descriptor-producing call of the package (open, os.open, sqlite3.connect, tempfile) is with-managed, closed on all normal paths of its function, handed over, or stored in an attribute whose owner class closes it; Container.close closes and disposes both sessions and __exit__/__del__ call it; "
+          "(R2) the bulk-read generator never has two files open and closes on every exit incl. exceptions; the lazy loose stream is closed after each yield; (R3) no descriptor-returning call is discarded, incl. fcntl commands folding to F_DUPFD under Linux and macOS platform models; "
+          "(R4) lazily opened streams are used only inside their with block; (R5) every read in a streaming loop has a constant bound, whole-object reads in import are guarded by the memory budget. Does NOT decide measured memory or the run-time descriptor census."),
+    note="Garbage collection is not relied upon; platform models Linux + macOS.",
+    technique="leak / one-open-file typestate on CFGs with exception edges + platform-aware constant folding + bounded-read table", ref="5/C18"),
 }
 
 PENDING_REASON = "check not built yet in this session (work in progress; DESIGN.md section 5 describes the planned static rules)"
